@@ -23,6 +23,8 @@ var c13types = []struct {
 	{"ptr-quoted", `*"fx/pk".Obj`, "*fx/pk.Obj", false},
 	{"local-value", `".".Val`, "probe/gen.Val", true},
 	{"local-bare-ptr", `*Obj`, "*probe/gen.Obj", true},
+	{"local-dot-ptr", `*".".Obj`, "*probe/gen.Obj", true},
+	{"ptr-dash-path", `*"fx/p-k.g".Val`, "*fx/p-k.g.Val", false},
 	{"iface", "pk.Iface", "fx/pk.Iface", false},
 	{"ptr-unquoted-path", "*fx/pk2.Val", "*fx/pk2.Val", false},
 }
@@ -75,7 +77,7 @@ func init() {
 	Register(&Check{
 		ID:    "C13",
 		Level: "exploration",
-		Rule: "full truth table: getter {absent, G} x type form (8: absent, value, pointer, quoted, local value, local bare pointer, interface, unquoted path) x must_getter {unset,true,false} x default_must_getter {unset,true,false} x meta names set/unset (2^3) x creation {constructor, type-only} (both tiers); collision rows (equal getters on two services; getter = every exported method and field of the embedded container, plus Must/InContext combinations); " +
+		Rule: "full truth table: getter {absent, G} x type form (10: absent, value, pointer, quoted, local value, local bare pointer, interface, unquoted path) x must_getter {unset,true,false} x default_must_getter {unset,true,false} x meta names set/unset (2^3) x creation {constructor, type-only} (both tiers); collision rows (equal getters on two services; getter = every exported method and field of the embedded container, plus Must/InContext combinations); " +
 			"a typed subset executed in the probe (getter, InContext twin, Must twins incl. panics on todo services). non-trivial = accepted configuration whose method set was compared; distinct = distinct configuration",
 		Assumptions: []string{"the exported method set of *container.Container is read with go/types from the pinned runtime's export data", "unexported underscore helper methods of the non-stub output are not part of the API and are ignored"},
 		BudgetQuick: 240 * time.Second, BudgetThorough: 900 * time.Second,
